@@ -9,7 +9,11 @@ cash <= mean for risk-averse criteria, QCVaR cash = -risk, price = -cash(portfol
 Hedger.compute_portfolio and written out (hedge gains minus proportional costs at the instrument's rate; linear and Black-Scholes hedges),
 price(payoff + k) = price(payoff) + k under the same seed, ERM price = loss; a clause REGISTERED AGAIN under an existing name before pricing
 (add_clause(name, c1) ... add_clause(name, c2)): the price follows the clause in force (shift by k_new - k_old, value against the contractual
-payoff written out, sequences of registrations with repeated names sent to op "hedger_price", whose registry replaces in place).
+payoff written out, sequences of registrations with repeated names sent to op "hedger_price", whose registry replaces in place);
+price = -cash(hedge portfolio - payoff) with the hedge portfolio built by the harness from the MODULE's own outputs (the module evaluated
+step by step on the features of each step, instrument h holding output h; no compute_hedge / compute_portfolio / functional.pl): hedgers
+with state-independent features only and with prev_hedge, H in {1, 2, 3}, every criterion (stepwise_portfolio; also in every op
+"hedger_price" scenario).
 """
 import math
 from fractions import Fraction as F
@@ -933,4 +937,7 @@ def check(ctx):
              "user subclasses of Hedger (compute_portfolio with a financing charge / rebate / own book-keeping, compute_pl only, both, compute_hedge "
              "with position limits; a flat fee in the composed-model scenarios, sent to op hedger_price as a last clause) x every criterion: price "
              "= -cash(its portfolio - payoff), also written out, payoff shift, ERM price = loss; "
+             "price = -cash(portfolio built step by step from the module's own outputs - payoff): {state-independent features, prev_hedge} x H in "
+             "{1,2,3} (underlier, other stocks, options listed with linear / Black-Scholes pricers, dyadic cost rates) x {Linear, user module} x "
+             "every criterion on every tier, and in every composed-model scenario; "
              "every case non-trivial except modules of the wrong width (error agreement); distinct = sha1 of canonical case")
